@@ -60,13 +60,15 @@ static const cfg_t cfgs[] = {
       PK_FIFO, SM_REPLACED, B_SUSPEND, U2_NONE, R_EXT, J_JOIN },
     { "BASIC/FIFO stacked sched: U1 eventual, X sets; join", 1, S_B, PK_FIFO,
       SM_STACKED, B_EVENTUAL, U2_NONE, R_EXT, J_JOIN },
-    { "BASIC/FIFO shared by ES1+ES2: U1 suspend, ULT in Q resumes; "
-      "join,free,join", 1, S_B, PK_SHARED, SM_MAIN, B_SUSPEND, U2_NONE, R_Q,
-      J_JOIN },
     { "finalize: U1 suspend, U2 yield in the primary pool, X resumes", 1, S_B,
       PK_FIFO, SM_MAIN, B_SUSPEND, U2_YIELD, R_EXT, J_FINALIZE },
     { "BASIC/FIFO(Q,R) main: U2 migrates itself to R, U1 eventual, X sets; "
       "join", 1, S_B, PK_FIFO, SM_MAIN, B_EVENTUAL, U2_MIGRATE, R_EXT, J_JOIN },
+    { "BASIC_WAIT/FIFO_WAIT main: U1 suspend, X resumes; join", 1, S_W,
+      PK_FIFO_WAIT, SM_MAIN, B_SUSPEND, U2_NONE, R_EXT, J_JOIN },
+    { "BASIC/FIFO shared by ES1+ES2: U1 suspend, ULT in Q resumes; "
+      "join,free,join", 1, S_B, PK_SHARED, SM_MAIN, B_SUSPEND, U2_NONE, R_Q,
+      J_JOIN },
     /* ---- thorough ---- */
     { "BASIC/FIFO main: U1 suspend, U2 yield_to U3, X resumes; join", 0, S_B,
       PK_FIFO, SM_MAIN, B_SUSPEND, U2_YIELD_TO, R_EXT, J_JOIN },
@@ -74,8 +76,6 @@ static const cfg_t cfgs[] = {
       SM_MAIN, B_MUTEX, U2_NONE, R_ES2, J_FREE },
     { "BASIC/FIFO main: U1 migrate-to-R + suspend, ULT@ES2 resumes; free", 0,
       S_B, PK_FIFO, SM_MAIN, B_MIGSUSPEND, U2_YIELD, R_ES2, J_FREE },
-    { "BASIC_WAIT/FIFO_WAIT main: U1 suspend, X resumes; join", 1, S_W,
-      PK_FIFO_WAIT, SM_MAIN, B_SUSPEND, U2_NONE, R_EXT, J_JOIN },
     { "BASIC_WAIT/FIFO main: U1 eventual, U2 yield, X sets; free", 0, S_W,
       PK_FIFO, SM_MAIN, B_EVENTUAL, U2_YIELD, R_EXT, J_FREE },
     { "PRIO/FIFO_WAIT main: U1 suspend, U2 migrates to R, X resumes; join", 0,
